@@ -52,7 +52,7 @@ func c13paths() []c13path {
 				for q := int32(0); q <= 2; q++ {
 					for _, r := range []bool{false, true} {
 						for _, mp := range []string{"", "m1"} {
-							for _, c := range []string{"disconnect", "drop", "keepalive", "protocol-error", "leave", "disconnect-then-leave-reordered-gossip", "leave-detected-500ms-apart", "disconnect-removal-lost-fullstate-then-leave", "drop-while-other-nodes-unreachable", "connect-answer-lost"} {
+							for _, c := range []string{"disconnect", "drop", "keepalive", "protocol-error", "leave", "disconnect-then-leave-reordered-gossip", "leave-detected-500ms-apart", "disconnect-removal-lost-fullstate-then-leave", "drop-while-other-nodes-unreachable", "connect-answer-lost", "malformed-packet"} {
 								if strings.Contains(c, "leave") && (n == 1 || (len(ws) == 1 && ws[0] == 1)) {
 									continue
 								}
@@ -168,6 +168,9 @@ func TestC13Wills(t *testing.T) {
 					w.Idle(6 * time.Second)
 				case "protocol-error":
 					d.SendRaw(EncodeConnect(&packet.Connect{Header: &packet.Header{}, ClientId: []byte("dying"), KeepaliveTimer: 2, Clean: true}))
+				case "malformed-packet":
+					// a SUBSCRIBE whose announced body is empty: the packet decoder runs off the end of the buffer
+					d.SendRaw([]byte{0x82, 0x00})
 				case "leave":
 					w.Leave(1)
 				case "disconnect-removal-lost-fullstate-then-leave":
